@@ -52,6 +52,15 @@ class TagConst:
 ASN1 = "sansldap.asn1"
 
 
+class SelfRef:
+    """The caller's self/cls, handed to a helper: attribute reads fold to class constants of that class."""
+    def __init__(self, cls: str):
+        self.cls = cls
+
+    def __repr__(self):
+        return f"<self of {self.cls}>"
+
+
 class Folder:
     def __init__(self, model: Model):
         self.m = model
@@ -92,8 +101,11 @@ class Folder:
                 return {"True": True, "False": False, "None": None}[e.id]
             return self.fold_global(module, e.id)
         if isinstance(e, ast.Attribute):
+            # a helper parameter that was bound to the caller's self/cls
+            if isinstance(e.value, ast.Name) and isinstance(env.get(e.value.id), SelfRef):
+                return self.fold(ast.copy_location(ast.Attribute(value=ast.Name(id="self", ctx=ast.Load()), attr=e.attr, ctx=ast.Load()), e), module, {}, env[e.value.id].cls)
             # self.X / cls.X class constants of the concrete class
-            if isinstance(e.value, ast.Name) and e.value.id in ("self", "cls") and self_cls is not None:
+            if isinstance(e.value, ast.Name) and e.value.id in ("self", "cls") and e.value.id not in env and self_cls is not None:
                 cc = self.m.class_const(self_cls, e.attr)
                 if cc is not None:
                     owner, expr = cc
@@ -188,6 +200,9 @@ class Folder:
             if q and q.rsplit(".", 1)[0] == f"{ASN1}.ASN1Tag" and q in self.m.functions:
                 fi = self.m.functions[q]
                 return self.fold_function_call(fi, e, module, env, self_cls)
+            # a private module-level helper of the package that is a single `return <expr>`
+            if q in self.m.functions and self.m.functions[q].cls is None and not isinstance(self.m.functions[q].node, ast.Lambda) and not self.m.functions[q].node.decorator_list:
+                return self.fold_function_call(self.m.functions[q], e, module, env, self_cls)
             raise Unfoldable(f"call {ftxt}")
         if isinstance(e, ast.IfExp):
             t = self.fold(e.test, module, env, self_cls)
@@ -236,10 +251,14 @@ class Folder:
         for p, d in zip(a.kwonlyargs, a.kw_defaults):
             if d is not None:
                 local[p.arg] = self.fold(d, fi.module)
+        def arg(v):
+            if isinstance(v, ast.Name) and v.id in ("self", "cls") and v.id not in (env or {}) and self_cls is not None:
+                return SelfRef(self_cls)
+            return self.fold(v, module, env, self_cls)
         for p, v in zip(params, call.args):
-            local[p] = self.fold(v, module, env, self_cls)
+            local[p] = arg(v)
         for k in call.keywords:
-            local[k.arg] = self.fold(k.value, module, env, self_cls)
+            local[k.arg] = arg(k.value)
         for p in params:
             if p not in local:
                 raise Unfoldable(f"missing argument {p} for {fi.qualname}")
